@@ -869,30 +869,199 @@ def _mentions(ctx, fn, e, name, depth=0):
     return False
 
 
-def path_mapping(ctx, rid):
+def _world_atom(ctx, fn, world, depth=0):
+    """atom function for eval3: `world(expr)` decides the leaves it knows; a local with a single definition stands for it."""
+    def atom(x):
+        v = world(x)
+        if v is not None:
+            return v
+        if isinstance(x, ast.Name) and depth < 3:
+            vals = [p_ for w_, p_ in ctx.res.bindings(fn).get(x.id, [])]
+            kinds = [w_ for w_, p_ in ctx.res.bindings(fn).get(x.id, [])]
+            if len(vals) == 1 and kinds == ["value"]:
+                return C.eval3(vals[0], _world_atom(ctx, fn, world, depth + 1))
+        return None
+    return atom
+
+
+def find_root_rules(ctx, rid):
+    """C05: the content path may be the payload root or its parent.  find_root returns the given path only when its name is
+    the torrent's name, `<path>/<name>` only when that entry exists - and, for a metafile that describes a single file, never
+    a directory (a parent directory that happens to carry the file's name is the parent, not the payload)."""
     fr = ctx.prog.func("torrentfile.recheck:Checker.find_root")
-    rets = [n for n in own_nodes(fr.node) if isinstance(n, ast.Return) and n.value is not None]
     g = C.cfg_of(fr)
+    params = [p for p in fr.params if p != fr.self_name]
+    rets = [n for n in own_nodes(fr.node) if isinstance(n, ast.Return) and n.value is not None]
+
+    def given(e, depth=0):
+        """e is the given path (the parameter, or a local bound once to Path(param) / str(param) / the parameter)."""
+        if isinstance(e, ast.Name):
+            if e.id in params:
+                return True
+            bl = ctx.res.bindings(fr).get(e.id, [])
+            if len(bl) == 1 and bl[0][0] == "value" and depth < 3:
+                v = bl[0][1]
+                if isinstance(v, ast.Call) and len(v.args) == 1 and not v.keywords and norm(v.func) in ("Path", "pathlib.Path", "str", "os.fspath", "os.path.normpath", "os.path.abspath"):
+                    return given(v.args[0], depth + 1)
+                return given(v, depth + 1)
+        return False
+
+    def is_name(e):
+        return isinstance(e, ast.Attribute) and e.attr == "name" and isinstance(e.value, ast.Name) and e.value.id == fr.self_name
+
+    def name_matches(x):
+        """<given>.name == self.name / os.path.basename(<given>) == self.name"""
+        if isinstance(x, ast.Compare) and len(x.ops) == 1 and isinstance(x.ops[0], (ast.Eq, ast.NotEq)):
+            for a, b in ((x.left, x.comparators[0]), (x.comparators[0], x.left)):
+                base = (isinstance(a, ast.Attribute) and a.attr == "name" and given(a.value)) or \
+                       (isinstance(a, ast.Call) and norm(a.func) == "os.path.basename" and a.args and given(a.args[0]))
+                if base and is_name(b):
+                    return isinstance(x.ops[0], ast.Eq)
+        return None
+
+    def listed(x):
+        """self.name in os.listdir(<given>) / (<given> / self.name).exists() / os.path.exists(join(<given>, self.name))"""
+        if isinstance(x, ast.Compare) and len(x.ops) == 1 and isinstance(x.ops[0], (ast.In, ast.NotIn)) and is_name(x.left):
+            c = x.comparators[0]
+            if isinstance(c, ast.Call) and ((norm(c.func) == "os.listdir" and c.args and given(c.args[0])) or
+                                            (isinstance(c.func, ast.Attribute) and c.func.attr == "iterdir" and given(c.func.value))):
+                return isinstance(x.ops[0], ast.In)
+        if isinstance(x, ast.Call) and isinstance(x.func, ast.Attribute) and x.func.attr in ("exists", "is_file", "is_dir") and child(x.func.value):
+            return True
+        if isinstance(x, ast.Call) and norm(x.func) in ("os.path.exists", "os.path.lexists") and x.args and child(x.args[0]):
+            return True
+        return None
+
+    def child(e, depth=0):
+        """<given> / self.name  or  os.path.join(<given>, self.name) (possibly through a local)"""
+        if isinstance(e, ast.BinOp) and isinstance(e.op, ast.Div) and given(e.left) and is_name(e.right):
+            return True
+        if isinstance(e, ast.Call) and norm(e.func) == "os.path.join" and len(e.args) == 2 and given(e.args[0]) and is_name(e.args[1]):
+            return True
+        if isinstance(e, ast.Name) and depth < 2:
+            bl = ctx.res.bindings(fr).get(e.id, [])
+            if len(bl) == 1 and bl[0][0] == "value":
+                return child(bl[0][1], depth + 1)
+        return False
+
+    def blocked(node, world):
+        return node not in C.reach_under(g, g.entry, _world_atom(ctx, fr, world))
+
     kinds = []
     for r in rets:
-        v = r.value
-        if isinstance(v, ast.Name):
+        rn = C.stmt_node(ctx, fr, r)
+        if given(r.value):
             kinds.append("root")
-        elif isinstance(v, ast.BinOp) and isinstance(v.op, ast.Div) and norm(v.right).endswith("name"):
+            # (1) only on a name match
+            ok = blocked(rn, lambda x: (not name_matches(x)) if name_matches(x) is not None else None)
+            ctx.decide(rid, fr, ok, "the given path is accepted as the payload root only when its name is the torrent's name",
+                       "find_root returns the given path although its name was not compared with the torrent's name: any directory is taken for the payload root", r)
+            # (2) a single-file torrent's payload is never a directory
+            def single_dir(x):
+                if isinstance(x, ast.Compare) and len(x.ops) == 1 and isinstance(x.ops[0], (ast.In, ast.NotIn)) and const_str(x.left) == "length":
+                    return isinstance(x.ops[0], ast.In)
+                if isinstance(x, ast.Call) and isinstance(x.func, ast.Attribute) and x.func.attr in ("is_dir", "is_file") and given(x.func.value):
+                    return x.func.attr == "is_dir"
+                if isinstance(x, ast.Call) and norm(x.func) in ("os.path.isdir", "os.path.isfile") and x.args and given(x.args[0]):
+                    return norm(x.func).endswith("isdir")
+                v = name_matches(x)
+                if v is not None:
+                    return v
+                return None
+            def kind_test(e, depth=0):
+                for x in ast.walk(e):
+                    if isinstance(x, ast.Call) and ((isinstance(x.func, ast.Attribute) and x.func.attr in ("is_dir", "is_file")) or norm(x.func) in ("os.path.isdir", "os.path.isfile")):
+                        return True
+                    if isinstance(x, ast.Name) and depth < 3:
+                        if any(w_ == "value" and kind_test(p_, depth + 1) for w_, p_ in ctx.res.bindings(fr).get(x.id, [])):
+                            return True
+                return False
+            # some test of the function asks whether the given path is a file or a directory
+            knows_kind = any(kind_test(C.test_expr(n_)) for n_ in g.live_nodes() if n_.kind == "test" and C.test_expr(n_) is not None)
+            ok2 = blocked(rn, single_dir)
+            if ok2:
+                ctx.holds(rid, fr, "for a metafile that describes a single file a directory is never taken for the payload (the file is looked for inside it)", norm(r) + " :: single file")
+            elif not knows_kind:
+                ctx.violated(rid, fr, "find_root returns the given path on a name match without looking at what it is: a single-file torrent rechecked against its parent directory, when that "
+                             "directory carries the file's name, takes the directory for the payload (IsADirectoryError instead of 100%)", norm(r) + " :: single file")
+            else:
+                ctx.undecided(rid, fr, "whether a directory can be returned as the payload of a single-file torrent could not be decided", norm(r) + " :: single file")
+        elif child(r.value):
             kinds.append("parent")
-        elif isinstance(v, ast.Call) and "join" in norm(v.func) and norm(v.args[-1]).endswith("name"):
-            kinds.append("parent")
+            ok = blocked(rn, lambda x: (not listed(x)) if listed(x) is not None else None)
+            ctx.decide(rid, fr, ok, "<path>/<name> is returned only when that entry exists in the given directory",
+                       "find_root returns <path>/<name> without having found the name in the given directory", r)
+
+            # a directory torrent given by its own root: the root wins, even if it holds an entry named like the torrent
+            def dir_torrent_root(x):
+                if isinstance(x, ast.Compare) and len(x.ops) == 1 and isinstance(x.ops[0], (ast.In, ast.NotIn)) and const_str(x.left) == "length":
+                    return isinstance(x.ops[0], ast.NotIn)
+                return name_matches(x)
+            ok3 = blocked(rn, dir_torrent_root)
+            ctx.decide(rid, fr, ok3, "a directory torrent given by its own root is not entered a second time when it contains an entry named like the torrent",
+                       "a directory torrent whose root directory contains an entry with the torrent's own name: given the root itself, find_root descends into that entry and every file is "
+                       "looked up one level too deep (an intact payload rechecks at 0%)", norm(r) + " :: own root")
         else:
             kinds.append("other")
-    ok = "root" in kinds and "parent" in kinds and "other" not in kinds
-    ctx.decide(rid, fr, ok, "find_root accepts the payload root itself and its parent directory (root / name)",
-               "find_root returns %s: the content path given as root or as parent is no longer mapped to the same payload root" % kinds, "find_root returns")
-    # the two accepting tests
-    tests = [C.test_expr(n) for n in g.live_nodes() if n.kind == "test"]
-    name_eq = any(isinstance(t, ast.Compare) and isinstance(t.ops[0], ast.Eq) and {norm(t.left).split(".")[-1], norm(t.comparators[0]).split(".")[-1]} == {"name"} for t in tests if t is not None)
-    listed = any(isinstance(t, ast.Compare) and isinstance(t.ops[0], ast.In) and norm(t.left).endswith("name") and "listdir" in norm(t.comparators[0]) for t in tests if t is not None)
-    ctx.decide(rid, fr, name_eq and listed, "accepting tests: path name == torrent name; torrent name in listdir(path)",
-               "find_root's accepting tests changed: %s" % [norm(t) for t in tests if t is not None], "find_root tests")
+            ctx.undecided(rid, fr, "find_root returns `%s`, which is neither the given path nor <path>/<name>" % norm(r.value), r)
+    if "root" not in kinds or "parent" not in kinds:
+        (ctx.undecided if "other" in kinds else ctx.violated)(rid, fr, "find_root returns %s: the content path given as root or as parent is no longer mapped to the same payload root" % (kinds or "nothing"), "find_root returns")
+    else:
+        ctx.holds(rid, fr, "find_root accepts the payload root itself and its parent directory (root / name)", "find_root returns")
+
+
+def v2_single_file_layout(ctx, rid, ck, walkers):
+    """BEP 52: the info dictionary of a pure v2 metafile has no `length`; a single file is described by the file tree
+    {name: {'': {...}}}.  Whoever decides between 'the payload root is the file' and 'walk the tree below the payload root'
+    must look at the tree (its keys against the torrent name), not only at info.length - otherwise a single-file v2 metafile
+    written by any other conformant encoder is looked up at <file>/<name>."""
+    sites = []
+    for m in ck.methods.values():
+        for n in own_nodes(m.node):
+            if isinstance(n, ast.Call) and m not in walkers and any(t in walkers for t in C.targets_of(ctx, m, n)):
+                sites.append((m, n))
+    if not sites:
+        if walkers:
+            ctx.undecided(rid, None, "no call that starts the walk over the v2 file tree found outside the walker", "v2 single-file layout")
+        return
+
+    def expand(fn, e, seen, depth=0):
+        """AST nodes the value of e may be computed from (through the definitions of locals)."""
+        out = []
+        for x in ast.walk(e):
+            out.append(x)
+            if isinstance(x, ast.Name) and depth < 4 and (x.id, depth) not in seen:
+                seen.add((x.id, depth))
+                for w_, p_ in ctx.res.bindings(fn).get(x.id, []):
+                    if w_ == "value":
+                        out += expand(fn, p_, seen, depth + 1)
+                        # what decided that this definition runs is part of what the value says
+                        dn = C.stmt_node(ctx, fn, p_)
+                        if dn is not None:
+                            for b, _ in C.cfg_of(fn).control_deps(dn, normal_only=True):
+                                if C.test_expr(b) is not None:
+                                    out += expand(fn, C.test_expr(b), seen, depth + 1)
+        return out
+
+    for m, call in sites:
+        g = C.cfg_of(m)
+        cn = C.stmt_node(ctx, m, call)
+        tests = [C.test_expr(b) for b, _ in g.control_deps(cn, normal_only=True) if C.test_expr(b) is not None]
+        nodes = [x for t in tests for x in expand(m, t, set())]
+        reads_tree = any(isinstance(x, ast.Subscript) and const_str(x.slice) == "file tree" for x in nodes)
+        reads_name = any(isinstance(x, ast.Attribute) and x.attr == "name" and isinstance(x.value, ast.Name) and x.value.id == m.self_name for x in nodes)
+        reads_len = any(isinstance(x, ast.Constant) and x.value == "length" for x in nodes)
+        if reads_tree and reads_name:
+            ctx.holds(rid, m, "the directory walk of the v2 file tree is chosen after comparing the tree's keys with the torrent name: the single-file layout {name: leaf} is recognised without info.length", call)
+        elif reads_len and not reads_tree:
+            ctx.violated(rid, m, "single file or directory is decided by `length` in info alone (%s): a pure v2 metafile has no info.length (BEP 52), so a single-file v2 metafile from another "
+                         "conformant encoder is walked as a directory and its file is looked up at <file>/<name> - an intact payload rechecks at 0%%" % "; ".join(norm(t) for t in tests), call)
+        else:
+            ctx.undecided(rid, m, "how the single-file layout of a v2 file tree is told from a directory (tests: %s) is not understood" % "; ".join(norm(t) for t in tests), call)
+
+
+def path_mapping(ctx, rid):
+    find_root_rules(ctx, rid)
     cp = ctx.prog.func("torrentfile.recheck:Checker.check_paths")
     # v1: one path per files entry, in order
     loops = [n for n in own_nodes(cp.node) if isinstance(n, ast.For)]
@@ -983,6 +1152,7 @@ def path_mapping(ctx, rid):
                 ctx.violated(rid, wf, "descent does not extend the accumulated path by the directory key", "tree descent")
             else:
                 ctx.undecided(rid, wf, "how the descent extends the accumulated path (`%s`) is not understood" % norm(rec[0].args[1] if len(rec[0].args) > 1 else rec[0]), "tree descent")
+    v2_single_file_layout(ctx, rid, ck, [w for w, _ in walkers])
     # optional leaf key guarded
     from .c13 import optional_keys
     opt, _ = optional_keys(ctx)
